@@ -173,6 +173,53 @@ theorem iterArrivals_of_key [DecidableEq κ] (es : List (Elem (κ × α))) (k : 
       simp only [proj, List.filterMap_cons, projElem, iterArrivals] at ha
       exact ends ha
 
+/-! ### aggregators on the keyed operator -/
+
+open Noir.WindowAggr in
+/-- **C12, keyed (every aggregator sees exactly the group).** For any accumulator triple
+    `(init, process, output)` (Model/WindowAggr.lean: `fold`, `sum`, `count`, `min`/`max`(`_by_key`)
+    = `foldFirst`, `first`, `last`, `collectVec`), the values carried by the results of key `k` are
+    `output (foldl process init g)` for exactly the groups `g` of `k`'s specification, in arrival
+    order; closed forms per accumulator: `fold_run`, `sum_run_int`, `count_run`,
+    `collectVec_run`, `foldFirst_run`, `first_run`, `last_run`, `max_run_int`, `min_run_int`
+    (Props/C12.lean). -/
+theorem cwin_keyed_aggregate [DecidableEq κ] {σ β : Type} (a : Acc α σ β) (c : Cfg) (hS : 1 ≤ c.slide)
+    (hSN : c.slide ≤ c.size) (es : List (Elem (κ × α))) (k : κ) :
+    ((WindowOp.run (mgr c) es).filterMap (keyOut k)).map (fun r => a.run r.val) =
+      (spec c [] (proj k es)).map a.run := by
+  rw [← cwin_keyed_groups c hS hSN es k]
+  simp [keyGroups, List.map_map, Function.comp_def]
+
+/-- every group the operator emits is non-empty: the `expect` in `FoldFirst::output`,
+    `First::output`, `Last::output` (fold.rs:85, nth.rs:22, 43) cannot fail -/
+theorem cwin_keyed_groups_nonempty [DecidableEq κ] (c : Cfg) (hS : 1 ≤ c.slide) (hSN : c.slide ≤ c.size)
+    (es : List (Elem (κ × α))) (k : κ) : ∀ g ∈ keyGroups k (WindowOp.run (mgr c) es), g ≠ [] := by
+  rw [cwin_keyed_groups c hS hSN es k]
+  exact spec_nonempty c hS hSN _ []
+
+/-! ### panic freedom -/
+
+/-- **C12 (no index panic, every reachable state).** For `1 ≤ S ≤ N`, after ANY input the manager
+    is in a state where `process` does not panic on a data element (`itemPanics`, Props/C12.lean:
+    no out-of-bounds `update_slot`, no `unwrap` of an empty deque, no division by zero). -/
+theorem countWindow_never_panics (c : Cfg) (hS : 1 ≤ c.slide) (hSN : c.slide ≤ c.size) (es : List (Elem α)) :
+    itemPanics c (stateAfter c ([] : List (Slot α)) es) = false := by
+  obtain ⟨cur, inv⟩ := reachable_inv c hS hSN es.length es (Nat.le_refl _)
+  exact (countWindow_no_index_panic c hS hSN _ cur inv).1
+
+/-- **C12 (no index panic, keyed operator).** Every manager the operator holds after ANY keyed
+    input is in a state where `process` does not panic on a data element. -/
+theorem cwin_op_never_panics [DecidableEq κ] (c : Cfg) (hS : 1 ≤ c.slide) (hSN : c.slide ≤ c.size)
+    (es : List (Elem (κ × α))) (k : κ) (s : List (Slot α))
+    (h : find k (WindowOp.stateAfter (mgr c) WindowOp.State.init es).windows = some s) :
+    itemPanics c s = false := by
+  rw [winop_state_independent] at h
+  have := soloState_eq c (proj k es) none
+  rw [h] at this
+  simp only [Option.getD_some, Option.getD_none] at this
+  rw [this]
+  exact countWindow_never_panics c hS hSN _
+
 /-- Non-vacuity: two interleaved keys, `N = 3`, `S = 2`, non-exact, two iterations, watermark and
     `FlushBatch` noise. Key 0 receives 1..5 | 6, key 1 receives 10,11,12 | 13. -/
 example :
